@@ -32,7 +32,10 @@ func newLexer(filename string, src io.Reader) *lexer {
 	s := &scanner.Scanner{}
 	s.Init(src)
 	s.Filename = filename
-	return &lexer{s: s}
+
+	l := &lexer{s: s}
+	s.Error = l.scanError
+	return l
 }
 
 func setLexerResult(l yyLexer, file *syntax.File) {
@@ -75,7 +78,10 @@ func (l *lexer) Lex(lval *yySymType) int {
 			return lval.yys
 
 		case scanner.Int:
-			v, _ := strconv.ParseInt(text, 10, 64)
+			v, err := strconv.ParseInt(text, 10, 64)
+			if err != nil {
+				return yyLexErrorf(l, "invalid integer %v", text)
+			}
 			lval.yys = INTEGER
 			lval.integer = int(v)
 
@@ -120,13 +126,32 @@ func (l *lexer) Lex(lval *yySymType) int {
 	}
 }
 
+// Error is called by the parser on a syntax error, the first error is retained.
 func (l *lexer) Error(s string) {
+	if l.err != nil {
+		return
+	}
 	l.err = fmt.Errorf("%v %v", l.s.Position, s)
+}
+
+// scanError is called by the scanner on a lexical error, the first error is retained.
+func (l *lexer) scanError(s *scanner.Scanner, msg string) {
+	if l.err != nil {
+		return
+	}
+
+	pos := s.Position
+	if !pos.IsValid() {
+		pos = s.Pos()
+	}
+	l.err = fmt.Errorf("%v %v", pos, msg)
 }
 
 func yyLexError(l yyLexer, err error) int {
 	ll := l.(*lexer)
-	ll.err = fmt.Errorf("%v %w", ll.s.Position, err)
+	if ll.err == nil {
+		ll.err = fmt.Errorf("%v %w", ll.s.Position, err)
+	}
 	return ERROR
 }
 
